@@ -466,14 +466,13 @@ func c03Signers(r *core.Run, p *core.Program) {
 			if !ok {
 				continue
 			}
-			x, y, rel, ok := an.CondCmp(iff.Cond)
-			if !ok {
-				continue
-			}
-			k, isC := an.ConstOf(y)
-			if isC && an.HasAll(an.Atoms(x), "elem", "call:(*math/big.Int).Bytes") && ((rel == token.GEQ && k.Int64() == 0x80) || (rel == token.GTR && k.Int64() == 0x7f)) {
-				// true edge appends
-				for _, ins := range b.Succs[0].Instrs {
+			// the edge on which "first byte >= 0x80" holds appends
+			padEdge := an.EdgeWhere(iff, func(x, y ssa.Value, rel token.Token) bool {
+				k, isC := an.ConstOf(y)
+				return isC && an.HasAll(an.Atoms(x), "elem", "call:(*math/big.Int).Bytes") && ((rel == token.GEQ && k.Int64() == 0x80) || (rel == token.GTR && k.Int64() == 0x7f))
+			})
+			if padEdge != nil {
+				for _, ins := range padEdge.Instrs {
 					if c, ok := ins.(*ssa.Call); ok && an.CallName(c) == "builtin.append" {
 						n++
 						break
